@@ -119,6 +119,22 @@ def case_container(rep):
                             run.ok("files.container", unit="read:cell-geometry", config=("read", ext, merge))
                         else:
                             run.fail("files.container", "format=%s merge=%s clause=cell-geometry" % (ext, merge), "cells read back have other corner coordinates")
+            # a container of one-dimensional meshes (lines): written and read back like any other
+            la = fem.mesh.Line(a=0.0, b=float(rng.uniform(1, 2)), n=int(rng.integers(3, 6)))
+            lb = fem.mesh.Line(a=3.0, b=float(rng.uniform(3.5, 5)), n=int(rng.integers(2, 5)))
+            lcont = fem.MeshContainer([la, lb])
+            want = np.sort(np.concatenate([la.points[la.cells].reshape(len(la.cells), -1), lb.points[lb.cells].reshape(len(lb.cells), -1)]), axis=0)
+            for ext in ("vtk", "vtu", "xdmf"):
+                fn_ = os.path.join(d, "lines." + ext)
+                try:
+                    lcont.as_meshio().write(fn_)
+                    back = fem.mesh.read(fn_, dim=1)
+                    got = np.sort(np.concatenate([m.points[m.cells].reshape(len(m.cells), -1) for m in back.meshes]), axis=0)
+                except (SystemExit, Exception) as exc:
+                    run.fail("files.container", "format=%s clause=line-container-roundtrip" % ext, "a container of line meshes written to %s cannot be read back (%s)" % (ext, type(exc).__name__))
+                    continue
+                run.compare("files.container", "format=%s clause=line-container-roundtrip" % ext, float(got.shape != want.shape) or maxabs(got - want), 1e-12,
+                            "a container of line meshes read back from %s has other cells" % ext, unit="container:lines", config=("line-container", ext))
     return fn
 
 
@@ -405,7 +421,7 @@ def _required():
     for n in NAMES[:11]:
         for ext in ("vtk", "vtu", "xdmf"):
             req.append("mesh:%s:%s" % (n, ext))
-    req += ["mesh:VTK_LAGRANGE_QUADRILATERAL:vtu", "mesh:VTK_LAGRANGE_HEXAHEDRON:vtu", "container:shared-points", "read:merge-shares-points",
+    req += ["mesh:VTK_LAGRANGE_QUADRILATERAL:vtu", "mesh:VTK_LAGRANGE_HEXAHEDRON:vtu", "container:shared-points", "container:lines", "read:merge-shares-points",
             "read:cell-geometry", "job:frame-count", "job:frame-order", "job:displacement", "job:cell-data", "job:custom-data", "job:early-stop",
             "save:displacements", "save:forces", "save:principal", "save:cauchy", "save:kind:mixed", "save:kind:planestrain", "save:kind:axisymmetric", "job:mesh-cells", "job:no-default-data", "save:user-data"]
     return req
